@@ -17,7 +17,7 @@
 
 #define MAXK 64
 static int N, NK, profile;
-static int home[MAXK + 1]; static char keyname[MAXK + 1][80]; static int keylen[MAXK + 1];
+static int home[MAXK + 1]; static char *keyname[MAXK + 1]; static int keylen[MAXK + 1];
 static unsigned char keymd5[MAXK + 1][16];
 static const int lenmap[3][4] = {{0, 1, 33, 99}, {0, 20, 60, 130}, {0, 32, 98, 164}};
 #define D1 Q_HASHARR_DATASIZE
@@ -79,7 +79,7 @@ static void observe(vh_buf *b, qhasharr_t *t, const char *pfx) {
     vh_bprintf(b, "\"%ssize\":[%d,%d,%d],\"%sgets\":[", pfx, num, mx, us, pfx);
     for (int k = 1; k <= NK; k++) {
         size_t sz = 0; unsigned char *d;
-        if (profile & 1) d = t->get_by_obj(t, keyname[k], (size_t) keylen[k], &sz); else d = t->get(t, keyname[k], &sz);
+        if ((profile & 1) || (profile & 8)) d = t->get_by_obj(t, keyname[k], (size_t) keylen[k], &sz); else d = t->get(t, keyname[k], &sz);
         vh_bprintf(b, "%s[%d,%zu]", k > 1 ? "," : "", valid_of(d, sz), d ? sz : (size_t) 0);
         free(d);
     }
@@ -131,13 +131,26 @@ int main(int argc, char **argv) {
     if (argc < 8) return 2;
     N = atoi(argv[3]); NK = atoi(argv[4]); profile = atoi(argv[6]);
     int inj_at = strchr(argv[7], 'a') != NULL, inj_from = strchr(argv[7], 'f') != NULL;
-    int lp = (profile >> 1) % 3, longkeys = profile & 1;
+    int lp = (profile >> 1) % 3, longkeys = (profile & 1) || (profile & 8);      /* long and huge keys go through the *_by_obj API */
     if (NK > MAXK) return 2;
     char *hs = argv[5];
     for (int k = 1; k <= NK; k++) {
         int want = -1;
         if (strcmp(argv[5], "-")) { want = atoi(hs); char *c = strchr(hs, ','); hs = c ? c + 1 : hs; }
+        /* profile bit 3: huge keys, up to the 65535-byte limit of the stored key length; all share their first bytes */
+        static const int HUGE_[] = {17, 18, 255, 256, 257, 4096, 65534, 65535, 300, 40000};
+        int huge = (profile & 8) ? HUGE_[k % 10] : 0;
+        keyname[k] = vh_malloc(huge ? (size_t) huge + 1 : 80);
         for (int salt = 0;; salt++) {
+            if (huge) {
+                memset(keyname[k], 'K', (size_t) huge); keyname[k][huge - 1] = 0;
+                int w = snprintf(keyname[k] + (huge > 30 ? huge - 14 : 1), 13, "%d.%d", k, salt);      /* the difference sits near the end */
+                keyname[k][(huge > 30 ? huge - 14 : 1) + w] = 'K';
+                keyname[k][huge - 1] = 0;
+                keylen[k] = huge;
+                if (want < 0 || (int) (qhashmurmur3_32(keyname[k], (size_t) keylen[k]) % (uint32_t) N) == want) break;
+                continue;
+            }
             if (longkeys) snprintf(keyname[k], 80, "shared-16b-prefix/%d/%d-tail", k, salt);     /* first 16 bytes identical for all keys */
             else snprintf(keyname[k], 80, "k%d_%d", k, salt);
             keylen[k] = (int) strlen(keyname[k]) + 1;
